@@ -18,7 +18,7 @@ func C08(r *core.Run) {
 		"(R08.1) no rejection can be returned by a handler after the storing call ran; (R08.2) every PutObject consumes and validates the whole input before its first mutation of stored state (or writes to a different path that is renamed into place) — today the two fs backends truncate the destination first (known findings F14); " +
 		"(R08.3) the declared size reaches ReadAll or a comparison with the copied byte count whose mismatch arm fails — the fs backends ignore it (known findings F15); " +
 		"(R08.4) the Content-MD5 digest is decoded, handed to the hashing reader that is the stream given to storage, compared at EOF, and a mismatch returns BadDigest, a malformed/empty one InvalidDigest; " +
-		"(R08.5) metadata size, key length and Content-Length presence are checked before storage is called; (R08.6) a rejected part leaves its slot untouched. (R12.3, shared) nothing is wrapped between the request body / chunk decoder and the hashing reader: a length-limiting wrapper turns an over-long upload into an accepted, truncated one. (R06.9, shared) a refused complete has not modified the pending upload."
+		"(R08.5) metadata size, key length and Content-Length presence are checked before storage is called; (R08.6) a rejected part leaves its slot untouched. (R12.3, shared) nothing is wrapped between the request body / chunk decoder and the hashing reader: a length-limiting wrapper turns an over-long upload into an accepted, truncated one. (R06.9, shared) a refused complete has not modified the pending upload. (R01.12) error discipline in path form: no call's error reaches a return untested / not handed back, and no path that found it non-nil ends in success without passing it on or testing it further."
 	r.NotDecided = "that 'unchanged' holds as values (listing, metadata equality), failure at byte k of a real connection, digest correctness as a value (MD5 arithmetic)"
 	ctx := oblig.NewCtx(r.P)
 	rule081(r)
@@ -30,6 +30,7 @@ func C08(r *core.Run) {
 	rule066(r, ctx)
 	rule123(r, ctx)
 	rule069(r)
+	rule0112(r, "C08")
 }
 
 // storingCall finds the call that hands the upload to storage in a handler.
